@@ -1,8 +1,338 @@
-//! Property check C17 (see /verif/DESIGN.md §4).
-use mc::{Level, Report};
+//! Property check C17 — external actions move once through request, claim and settlement, durably.
+//!
+//! Explicit-state breadth-first search over operation histories of the real
+//! `ExternalActionCoordinatorV1`, driven through its public API over an `InMemoryWalStore` that is
+//! wrapped in a fault-injecting `WalStorePort` (`FaultStore`).  Grants are consumed by value, so a
+//! state is its operation history and is rebuilt by re-execution.  Every committing transition is
+//! additionally executed with a fault at every store call it makes (three fault modes) followed by
+//! trusted local recovery.  The oracle is the boring reference lifecycle model `Model` below plus
+//! the invariants of the property statement (see `World::check_state`).
+
+mod fixtures;
+mod fsprefix;
+mod store;
+mod worldx;
+
+use mc::{json, Level, Report, Value};
+use rayon::prelude::*;
+use std::collections::{BTreeMap, HashMap, HashSet};
+
+use fixtures::*;
+use worldx::*;
+
+/// Everything one executed transition reports back to the (sequential) merge step.
+struct TransOut {
+    key: [u8; 32],
+    hist: Vec<Op>,
+    out: StepOut,
+    root: [u8; 32],
+    content: String,
+    /// number of mutating store calls the (fault-free) operation made
+    store_calls: usize,
+    committed: bool,
+}
+
+fn run_transition(fx: &Fx, hist: &[Op], op: &Op) -> TransOut {
+    let mut w = World::new(fx);
+    for o in hist {
+        w.step(o);
+    }
+    w.record = true;
+    w.heavy = true;
+    w.out = StepOut::default();
+    w.step(op);
+    let mut h2 = hist.to_vec();
+    h2.push(op.clone());
+    TransOut {
+        key: w.key(),
+        hist: h2,
+        root: w.coord.observed_index().root_digest(),
+        content: format!("{:?}", w.model.life),
+        store_calls: w.last_store_calls,
+        committed: w.last_committed,
+        out: w.out,
+    }
+}
+
+fn merge_out(r: &Report, out: &StepOut, hist: &[Op]) {
+    for (k, n) in &out.outcomes {
+        r.outcome_n(k, *n);
+    }
+    for (k, n) in &out.counters {
+        r.counter(k, *n);
+    }
+    r.nontrivial_many(out.nontrivial.iter().copied());
+    for (sig, extra) in &out.viol {
+        if sig.starts_with("MACHINERY:") {
+            r.machinery_error(&format!("{sig} history={:?} {extra}", hist.iter().map(|o| o.enc()).collect::<Vec<_>>()));
+            continue;
+        }
+        r.violation(
+            sig,
+            json!({"case": {"history": hist.iter().map(|o| o.enc()).collect::<Vec<_>>()}, "what": extra}),
+        );
+    }
+}
+
+fn explore(r: &Report, fx: &Fx, phase: &str, menu: &[Op], max_depth: usize, cap_frac: f64) {
+    let mut seen: HashSet<[u8; 32]> = HashSet::new();
+    let mut root_to_content: HashMap<[u8; 32], String> = HashMap::new();
+    let mut content_to_root: HashMap<String, [u8; 32]> = HashMap::new();
+    let w0 = World::new(fx);
+    seen.insert(w0.key());
+    root_to_content.insert(w0.coord.observed_index().root_digest(), format!("{:?}", w0.model.life));
+    content_to_root.insert(format!("{:?}", w0.model.life), w0.coord.observed_index().root_digest());
+    let mut states = 1u64;
+    let mut transitions = 0u64;
+    let mut per_depth = vec![1u64];
+    let mut frontier: Vec<Vec<Op>> = vec![Vec::new()];
+    let mut sampled = 0usize;
+    let mut completed_depth = 0usize;
+    for depth in 0..max_depth {
+        if frontier.is_empty() {
+            break;
+        }
+        if r.over_budget_frac(cap_frac * 0.9) {
+            r.cap_hit(&format!("BFS[{phase}] stopped before depth {} (completed depth {})", depth + 1, completed_depth));
+            break;
+        }
+        // determinism self-check on a sample of the frontier: rebuild twice, compare everything
+        for (i, hist) in frontier.iter().enumerate() {
+            if i % 16 == 0 {
+                let mut a = World::new(fx);
+                let mut b = World::new(fx);
+                for o in hist {
+                    a.step(o);
+                    b.step(o);
+                }
+                let same = a.key() == b.key()
+                    && a.coord == b.coord
+                    && a.store.snapshot_pair() == b.store.snapshot_pair()
+                    && a.pool_fp() == b.pool_fp();
+                r.counter("determinism_rebuilds_compared", 1);
+                if !same {
+                    r.machinery_error(&format!(
+                        "rebuild of history {:?} is not deterministic",
+                        hist.iter().map(|o| o.enc()).collect::<Vec<_>>()
+                    ));
+                }
+            }
+        }
+        let expanded: Vec<Vec<TransOut>> = frontier
+            .par_iter()
+            .map(|hist| {
+                let mut outs = Vec::new();
+                if r.over_budget_frac(cap_frac) {
+                    return outs;
+                }
+                for op in menu.iter().cloned() {
+                    let t = run_transition(fx, hist, &op);
+                    let calls = t.store_calls;
+                    let committed = t.committed;
+                    outs.push(t);
+                    if committed && op.is_lifecycle() {
+                        for k in 0..calls {
+                            for mode in [Mode::Fail, Mode::Crash, Mode::AckLost] {
+                                let f = Op::Fault(Box::new(op.clone()), k as u8, mode);
+                                outs.push(run_transition(fx, hist, &f));
+                            }
+                        }
+                    }
+                }
+                outs
+            })
+            .collect();
+        if r.over_budget_frac(cap_frac) {
+            r.cap_hit(&format!("BFS[{phase}] depth {} expansion was cut by the wall cap (completed depth {})", depth + 1, completed_depth));
+            break;
+        }
+        let mut next = Vec::new();
+        for outs in expanded {
+            for t in outs {
+                transitions += 1;
+                merge_out(r, &t.out, &t.hist);
+                if sampled < 8 && (t.committed || matches!(t.hist.last(), Some(Op::Fault(..)))) && t.hist.len() >= 3 {
+                    sampled += 1;
+                    r.sample(json!({"history": t.hist.iter().map(|o| o.enc()).collect::<Vec<_>>(),
+                        "lifecycle_after": t.content, "index_root": mc::hex(&t.root[..8]),
+                        "store_calls_of_last_op": t.store_calls}));
+                }
+                // root digest is a function of (and only of) the lifecycle content
+                match root_to_content.get(&t.root) {
+                    Some(c) if *c != t.content => r.violation(
+                        "index-root-collision:two lifecycle contents share one root digest",
+                        json!({"case": {"history": t.hist.iter().map(|o| o.enc()).collect::<Vec<_>>()}, "a": c, "b": t.content}),
+                    ),
+                    Some(_) => {}
+                    None => {
+                        root_to_content.insert(t.root, t.content.clone());
+                    }
+                }
+                match content_to_root.get(&t.content) {
+                    Some(x) if *x != t.root => r.violation(
+                        "index-root-path-dependent:same lifecycle content, different root digest",
+                        json!({"case": {"history": t.hist.iter().map(|o| o.enc()).collect::<Vec<_>>()}, "content": t.content}),
+                    ),
+                    Some(_) => {}
+                    None => {
+                        content_to_root.insert(t.content.clone(), t.root);
+                    }
+                }
+                if !t.out.viol.is_empty() {
+                    continue; // do not expand beyond a violating state
+                }
+                if seen.insert(t.key) {
+                    states += 1;
+                    next.push(t.hist);
+                }
+            }
+        }
+        completed_depth = depth + 1;
+        per_depth.push(next.len() as u64);
+        frontier = next;
+    }
+    r.add_states(states);
+    r.add_transitions(transitions);
+    r.add_traces(transitions);
+    r.eval(transitions);
+    r.note(&format!("bfs_{phase}"), json!({"menu_size": menu.len(), "max_depth": max_depth, "completed_depth": completed_depth,
+        "states": states, "transitions": transitions, "new_states_per_depth": per_depth, "distinct_index_roots": root_to_content.len()}));
+}
+
+fn replay(r: &Report, fx: &Fx, path: &std::path::Path) {
+    let txt = match std::fs::read_to_string(path) {
+        Ok(t) => t,
+        Err(e) => {
+            r.machinery_error(&format!("cannot read replay file: {e}"));
+            return;
+        }
+    };
+    let v: Value = serde_json::from_str(&txt).unwrap_or(Value::Null);
+    let hist = v
+        .pointer("/detail/case/history")
+        .or_else(|| v.pointer("/case/history"))
+        .and_then(|h| h.as_array())
+        .cloned()
+        .unwrap_or_default();
+    let mut ops = Vec::new();
+    for s in &hist {
+        match s.as_str().and_then(Op::dec) {
+            Some(o) => ops.push(o),
+            None => {
+                r.machinery_error(&format!("cannot parse op {s}"));
+                return;
+            }
+        }
+    }
+    let mut w = World::new(fx);
+    w.record = true;
+    w.heavy = true;
+    for o in &ops {
+        w.step(o);
+        println!("[C17 replay] after {:<40} lifecycle={:?} commits={}", o.enc(), w.model.life, w.store.inner.commit_count());
+    }
+    merge_out(r, &w.out, &ops);
+    r.add_states(ops.len() as u64 + 1);
+    r.add_transitions(ops.len() as u64);
+    r.add_traces(1);
+    r.eval(ops.len() as u64);
+    r.nontrivial(b"replay");
+    r.nontrivial(b"replay2");
+    r.sample(json!({"replayed": hist}));
+}
 
 fn main() {
-    let r = Report::new("C17", Level::Exploration);
-    r.machinery_error("check not implemented yet");
+    let r = Report::new("C17", Level::ModelChecking);
+    let fx = Fx::new();
+    r.rule("BFS over operation histories (state = history, rebuilt by re-execution on the real ExternalActionCoordinatorV1 + FaultStore(InMemoryWalStore)); \
+            alphabet: request(r), claim(r, 8 argument classes), settle(r, 4 kinds x 5 argument classes), retry(r, 3 classes), observe, crash-recover, \
+            and for every committing transition a fault (fail | crash | ack-lost) at every store call it makes followed by recovery; 2 request ids; \
+            dedup key = (index root, per-request posture, held tokens/grants, commit count). distinct_nontrivial counts distinct (operation class, \
+            lifecycle stage of the request, observed outcome) triples in which a store transaction was committed, refused with a typed error, or interrupted by a fault.");
+    r.assume("InMemoryWalStore is the durable medium; a crash loses the coordinator and every held token but never persisted frames/commit markers; \
+              fault model = a store call fails without persisting (process survives), or the process dies at the call (not persisted), or the call persists and the \
+              acknowledgement is lost (process dies); partial persistence of a single store call is covered only by the thorough filesystem byte-prefix pass.");
+    r.assume("ordinary WAL recovery of an uncommitted tail = recover_in_memory_store(Writable) (tail truncation), as documented in ADR 0026; \
+              BLAKE3 collisions are not modelled; request universe = 2 ids, settlement byte budget 16.");
+    if let Some(p) = r.replay.clone() {
+        replay(&r, &fx, &p);
+        r.finish();
+    }
+    let depth = std::env::var("C17_DEPTH")
+        .ok()
+        .and_then(|s| s.parse().ok())
+        .unwrap_or(r.pick(5usize, 7usize));
+    if r.quick() {
+        explore(&r, &fx, "full", &plain_menu(), depth, 0.8);
+    } else {
+        // full alphabet one level deeper than quick, then a core alphabet to the full depth
+        explore(&r, &fx, "full", &plain_menu(), depth.saturating_sub(1), 0.30);
+        explore(&r, &fx, "core", &core_menu(), depth, 0.60);
+        fsprefix::run(&r, &fx);
+    }
+
+    // ---- vacuity guards ----
+    let oc = |k: &str| r.outcome_count(k);
+    let cv = |k: &str| r.counter_value(k);
+    for kind in ["request", "claim", "settle"] {
+        r.guard(&format!("op_{kind}_committed"), oc(&format!("{kind}:committed")) > 0);
+    }
+    for a in ClaimArg::ALL {
+        r.guard(&format!("claim_arg_{a:?}_executed"), cv(&format!("exec:claim:{a:?}")) > 0);
+    }
+    for a in SettleArg::ALL {
+        for k in 1u8..=4 {
+            r.guard(&format!("settle_kind{k}_{a:?}_executed"), cv(&format!("exec:settle:k{k}:{a:?}")) > 0);
+        }
+    }
+    for k in 1u8..=4 {
+        r.guard(&format!("settle_kind{k}_admitted"), cv(&format!("settled_kind:{k}")) > 0);
+    }
+    for a in RetryArg::ALL {
+        r.guard(&format!("retry_{a:?}_executed"), cv(&format!("exec:retry:{a:?}")) > 0);
+    }
+    r.guard("retry_answered_from_retained_bytes", oc("retry:answered-from-retained") > 0);
+    r.guard("retry_conflict_seen", oc("retry:refused:ConflictingSettlement") > 0);
+    r.guard("observe_executed", cv("exec:observe") > 0);
+    let typed: Vec<String> = {
+        // distinct typed refusal kinds
+        let mut s = std::collections::BTreeSet::new();
+        for k in [
+            "DuplicateRequest", "DuplicateClaim", "DuplicateSettlement", "UnauthorizedAdapter", "AuthorizationBindingMismatch",
+            "StaleBasis", "MissingLeaseEvidence", "AttemptBudgetExhausted", "SettlementClaimMismatch", "SettlementBudgetExceeded",
+            "SettlementSchemaMismatch", "SettlementResultDigestMismatch", "ConflictingSettlement", "MissingRequest", "MissingClaim",
+            "MissingSettlement", "CoordinatorRecoveryRequired", "WalTailNotClean",
+        ] {
+            if cv(&format!("typed_refusal:{k}")) > 0 {
+                s.insert(k.to_string());
+            }
+        }
+        s.into_iter().collect()
+    };
+    r.note("typed_refusal_kinds_seen", json!(typed));
+    r.guard("at_least_3_typed_refusal_kinds", typed.len() >= 3);
+    for k in ["SettlementClaimMismatch", "SettlementBudgetExceeded", "SettlementSchemaMismatch", "StaleBasis", "UnauthorizedAdapter", "DuplicateClaim", "CoordinatorRecoveryRequired", "WalTailNotClean"] {
+        r.guard(&format!("typed_refusal_{k}_seen"), cv(&format!("typed_refusal:{k}")) > 0);
+    }
+    for stage in ["Absent", "Requested", "Claimed", "Settled"] {
+        r.guard(&format!("crash_recover_at_{stage}"), cv(&format!("crash_recover_at:{stage}")) > 0);
+    }
+    for kind in ["request", "claim", "settle"] {
+        for k in 0..2 {
+            for mode in ["Fail", "Crash", "AckLost"] {
+                r.guard(&format!("fault_{kind}_call{k}_{mode}"), cv(&format!("fault:{kind}:call{k}:{mode}")) > 0);
+            }
+        }
+    }
+    r.guard("store_calls_per_transition_measured", cv("store_calls_per_commit:2") > 0);
+    r.guard("grant_rederived_after_lost_ack", cv("grant_rederived_after_lost_ack") > 0);
+    r.guard("request_token_rederived_after_lost_ack", cv("request_token_rederived_after_lost_ack") > 0);
+    r.guard("receipt_rederived_after_lost_ack", cv("receipt_rederived_after_lost_ack") > 0);
+    r.guard("uninterrupted_projection_compared", cv("uninterrupted_projection_compared") > 0);
+    r.guard("poisoned_coordinator_probed", cv("poisoned_probe_refused") > 0);
+    r.guard("stale_grant_resubmitted_after_settlement", cv("settle_with_stale_grant_after_settlement") > 0);
+    r.guard("stale_token_reclaimed_after_claim", cv("claim_with_stale_token_after_claim") > 0);
+    r.guard("uncommitted_tail_seen_by_recover", cv("recover_saw_uncommitted_tail") > 0);
+    let _ = BTreeMap::<u8, u8>::new();
     r.finish();
 }
